@@ -631,6 +631,9 @@ func (h *c01hist) note(op string, err error, format string, a ...interface{}) {
 		e = " -> ERR"
 	}
 	h.log = append(h.log, "# "+fmt.Sprintf(format, a...)+e)
+	if os.Getenv("C01_DEBUG") != "" {
+		fmt.Fprintln(os.Stderr, h.log[len(h.log)-1])
+	}
 	h.ops[op]++
 }
 
@@ -769,17 +772,21 @@ func (h *c01hist) step() {
 			h.note("SetCellHyperLink", f.SetCellHyperLink(sh, c, "Sheet1!A10", "Location", xl.HyperlinkOpts{Tooltip: &tip}), "SetCellHyperLink(%s,%s,location)", sh, c)
 		}
 	case k < 65:
-		c1, _, _ := h.cellF(sh, h.rng.Chance(50))
+		c1, _, _ := h.cellF(sh, false)
 		c2, _, _ := h.cellF(sh, false)
+		if h.rng.Chance(25) { // a single far cell; never a far rectangle (it would materialise millions of cells)
+			c1, _, _ = h.cell(sh)
+			c2 = c1
+		}
 		id := h.style()
 		h.note("SetCellStyle", f.SetCellStyle(sh, c1, c2, id), "SetCellStyle(%s,%s,%s,%d)", sh, c1, c2, id)
 	case k < 69:
-		c1, _, _ := h.cell(sh)
-		c2, _, _ := h.cell(sh)
+		c1, _, _ := h.cellF(sh, false) // MergeCell visits every cell of the rectangle: near cells only
+		c2, _, _ := h.cellF(sh, false)
 		h.note("MergeCell", f.MergeCell(sh, c1, c2), "MergeCell(%s,%s,%s)", sh, c1, c2)
 	case k < 70:
-		c1, _, _ := h.cell(sh)
-		c2, _, _ := h.cell(sh)
+		c1, _, _ := h.cellF(sh, false)
+		c2, _, _ := h.cellF(sh, false)
 		h.note("UnmergeCell", f.UnmergeCell(sh, c1, c2), "UnmergeCell(%s,%s,%s)", sh, c1, c2)
 	case k < 74:
 		_, _, row := h.cell(sh)
@@ -846,7 +853,13 @@ func (h *c01hist) step() {
 		}
 	case k < 95:
 		nn := rng.Pick([]string{"Renamed", "R&D", "Q1 <2026>", "Sheet1"})
-		h.note("SetSheetName", f.SetSheetName(sh, nn), "SetSheetName(%s,%s)", sh, nn)
+		dup := false // SetSheetName accepts an existing name (C16's finding); observation by name is undefined then
+		for _, o := range f.GetSheetList() {
+			dup = dup || strings.EqualFold(o, nn)
+		}
+		if !dup {
+			h.note("SetSheetName", f.SetSheetName(sh, nn), "SetSheetName(%s,%s)", sh, nn)
+		}
 	case k < 96:
 		v := rng.Chance(40)
 		h.note("SetSheetVisible", f.SetSheetVisible(sh, v, rng.Chance(30)), "SetSheetVisible(%s,%v)", sh, v)
@@ -1093,6 +1106,12 @@ func c01runHist(r *Run, seed uint64, idx, nops, flags int, rec bool) (sig, what 
 			}
 			spec := strings.TrimPrefix(pre[sh], "ok ")
 			post := xl.VerifC01Rows(g, sh)
+			if d := os.Getenv("C01_DEBUG"); d != "" {
+				_ = os.WriteFile(filepath.Join(d, "post-"+strconv.Itoa(len(sh))+".txt"), []byte(sh+"\n"+pre[sh]+"\n"+post+"\n"), 0o644)
+				if b, err := h.f.WriteToBuffer(); err == nil {
+					_ = os.WriteFile(filepath.Join(d, "book.xlsx"), b.Bytes(), 0o644)
+				}
+			}
 			ln := r.Op("hcycle "+spec, post)
 			r.Stat("hcycle:" + strings.SplitN(post, " ", 2)[0])
 			c01gridOracle(r, "hcycle", spec, post, ln)
@@ -1119,6 +1138,9 @@ func c01runHist(r *Run, seed uint64, idx, nops, flags int, rec bool) (sig, what 
 }
 
 func c01history(r *Run, seed uint64, idx, nops, flags int) {
+	if os.Getenv("C01_DEBUG") != "" {
+		fmt.Fprintf(os.Stderr, "%s hist %d %d %d %d\n", time.Now().Format("15:04:05"), seed, idx, nops, flags)
+	}
 	sig, what, log := c01runHist(r, seed, idx, nops, flags, true)
 	r.Case(fmt.Sprintf("hist:%d:%d:%d:%d", seed, idx, nops, flags), true)
 	if sig == "" {
